@@ -77,7 +77,8 @@ def cbitsDefects (cbits : List Nat) : List Defect := if cbits.any (64 ≤ ·) th
 def opDefects (nq : Nat) : COp P → List Defect
   | .gate g bits => gateDefects g bits
   | .cond control _ g bits =>
-    gateDefects g bits ++ cbitsDefects control ++ (if 64 < control.length then [.controlsGt64] else []) ++
+    -- in execution order: the control word is gathered (shifts) before the gate is looked at
+    cbitsDefects control ++ (if 64 < control.length then [.controlsGt64] else []) ++ gateDefects g bits ++
       (if control.any (nq ≤ ·) then [.condControlGeNq] else [])
   | .measure _ c _ | .peek _ c _ => cbitsDefects [c]
   | .measureAll cbits _ | .peekAll cbits _ =>
@@ -91,7 +92,7 @@ def Defect.exec : Defect → Bool
   | .ctrlBetweenTargets | .resetAllNoQubits | .emptyBarrier | .condControlGeNq => false
   | _ => true
 def Defect.latex : Defect → Bool
-  | .dupQubits | .ctrlBetweenTargets | .resetAllNoQubits | .emptyBarrier | .unsupportedGate => true
+  | .dupQubits | .controlsGt64 | .ctrlBetweenTargets | .resetAllNoQubits | .emptyBarrier | .unsupportedGate => true
   | _ => false
 def Defect.openQasm : Defect → Bool
   | .arity | .controlsGt64 | .measureAllLen | .unsupportedGate => true
